@@ -94,7 +94,8 @@ impl RenetClient {
 //@spec
         requires
             // history assumptions: time only moves forward (no timestamp lies in the future) and does not overflow u128 nanoseconds
-            old(self).current_time.nanos + duration.nanos <= u128::MAX,
+            // ... and stays within what std::time::Duration can represent (u64::MAX seconds)
+            old(self).current_time.nanos + duration.nanos <= 0xFFFF_FFFF_FFFF_FFFF * 1_000_000_000,
             forall|c: u8| #[trigger] old(self).receive_unreliable_channels@.contains_key(c) ==> old(self).receive_unreliable_channels@[c].wf()
                 && old(self).receive_unreliable_channels@[c].not_after(old(self).current_time),
             forall|q: u64| #[trigger] old(self).sent_packets@.contains_key(q) ==> old(self).sent_packets@[q].sent_at.nanos <= old(self).current_time.nanos,
@@ -129,7 +130,7 @@ impl RenetClient {
             invariant
                 *self == s1,
                 forall|i: int| 0 <= i < itS.seq().len() ==> sp0.contains_key(*(#[trigger] itS.seq()[i]).0) && sp0[*itS.seq()[i].0] == *itS.seq()[i].1,
-                forall|j: int| 0 <= j < lost_packets@.len() ==> sp0.contains_key(#[trigger] lost_packets@[j]) && stale_packet(now, sp0[lost_packets@[j]]),
+                forall|j: int| 0 <= j < lost_packets@.len() ==> sp0.contains_key(#[trigger] lost_packets@[j]) && stale_packet(now, sp0[lost_packets@[j]]),   // @C15 update.only_records_at_least_3s_old_are_collected
 //@before /for sequence in lost_packets\.iter\(\) \{/
         let ghost lost = lost_packets@;
 //@loop 3 iter=itL
